@@ -15,6 +15,7 @@ import (
 	"errors"
 	"fmt"
 	"math/big"
+	"os"
 	"sort"
 	"strings"
 	"time"
@@ -880,8 +881,11 @@ func run(c Sx) Result {
 		return 9
 	}
 	sort.SliceStable(oracleKnown, func(i, j int) bool { return prio(oracleKnown[i]) < prio(oracleKnown[j]) })
-	if !cs.report {
-		oracleKnown = nil // still visible as tags
+	if !cs.report || (len(os.Args) > 1 && os.Args[1] == "shrink") {
+		// still visible as tags.  While shrinking, only failures that are NOT recorded deviations
+		// count: otherwise a new failure can shrink into the shape of a recorded one and be
+		// swallowed by its known-findings entry.
+		oracleKnown = nil
 	}
 	res.Oracle = strings.Join(append(oracleReal, oracleKnown...), " | ")
 	res.NonTrivial = reorgs > 0 && lookups > 0
